@@ -47,8 +47,11 @@ entity Group in [Group];
 entity User in [Group] = { level: Long, active: Bool, manager?: User, friends: Set<User>, home?: Folder };
 entity Folder in [Folder] = { admin?: User, depth: Long };
 entity Doc in [Folder] = { owner: User, readers: Set<User>, parent?: Doc, public: Bool, team?: Group } tags String;
-action view, edit appliesTo { principal: [User], resource: [Doc], context: { via?: User, n: Long, docs?: Set<Doc> } };
-action browse appliesTo { principal: [User], resource: [Folder], context: { via?: User, n: Long, docs?: Set<Doc> } };
+action anyop;
+action readonly in [anyop];
+action view in [readonly] appliesTo { principal: [User], resource: [Doc], context: { via?: User, n: Long, docs?: Set<Doc> } };
+action edit in [anyop] appliesTo { principal: [User], resource: [Doc], context: { via?: User, n: Long, docs?: Set<Doc> } };
+action browse in [readonly] appliesTo { principal: [User], resource: [Folder], context: { via?: User, n: Long, docs?: Set<Doc> } };
 action admin appliesTo { principal: [User], resource: [Folder, Doc], context: { n: Long } };
 "#;
 pub const SCHEMA_BROKEN_SYNTAX: &str = "entity User in [Group = { level: Long };";
@@ -1089,6 +1092,9 @@ impl World for Frontends {
         let mut sched = Rng::sub(seed, "scheduler");
         let nthreads = rng.range(1, 3);
         let psets: Vec<PsDoc> = (0..rng.range(2, 4)).map(|_| gen_ps(&mut rng)).collect();
+        // policy sets without a designed-invalid document (the CLI ops prefer them, so that most
+        // spawns reach a decision)
+        let good_ps: Vec<u8> = psets.iter().enumerate().filter(|(_, p)| !p.statics.iter().any(|(id, _)| id == "bad" || id == "tmpl-in-static") && !p.links.iter().any(|l| l.tid == "missing")).map(|(i, _)| i as u8).collect();
         let stores: Vec<Vec<Value>> = (0..rng.range(1, 3)).map(|_| crate::worlds::batched::gen_store(&mut rng)).collect();
         let nops = rng.range(8, 28);
         let cli_w = if std::env::var("VERIF_NO_CLI").is_ok() { 0 } else { 1 };
@@ -1173,7 +1179,7 @@ impl World for Frontends {
                     };
                     Op::Cli {
                         thread,
-                        cli: crate::worlds::frontends_cli::CliOp { kind, ps: rng.below(psets.len()) as u8, store: rng.below(stores.len()) as u8, schema, req, verbose: rng.pct(50), request_validation, request_json: rng.pct(40), policy_json: rng.pct(30), faults, hash_seed: hs.next() },
+                        cli: crate::worlds::frontends_cli::CliOp { kind, ps: if !good_ps.is_empty() && rng.pct(80) { *rng.pick(&good_ps) } else { rng.below(psets.len()) as u8 }, store: rng.below(stores.len()) as u8, schema, req, verbose: rng.pct(50), request_validation, request_json: rng.pct(40), policy_json: rng.pct(30), faults, hash_seed: hs.next() },
                     }
                 }
             };
